@@ -71,7 +71,7 @@ func C16(c *Ctx) {
 	r.Explanation = "(A2) every write of a module's Params section is guarded, in the writing function, by Params.Validate()==nil on the very value that is marshalled; (A1) only keeper SetParams and the v3 migration write that section; " +
 		"(A8) no call site of a params writer (SetParams) drops its error, in handlers, genesis import or migrations; (A7) Params.Validate reads every field of the Params struct, hands it to a validator that has a value-dependent rejecting branch, and contains the cross-field rejections (default<=max, signers>=min accepts); MsgUpdateParams.ValidateBasic reaches Validate and propagates its error; " +
 		"(A6) no caching: no keeper struct or package variable has a Params type, and no keeper method stores through its receiver, so every use reads the store. Decides these structural necessary conditions for all inputs and call sites; numeric bounds inside validators are only checked for presence."
-	r.Rules = []string{"A1.params-writers", "A2.params-validated", "A8.setparams-error", "A7.validate-fields", "A7.validate-rule", "A7.validate-cross-field", "A7.update-validatebasic", "A6.no-params-cache"}
+	r.Rules = []string{"A1.params-writers", "A2.params-validated", "A8.setparams-error", "A7.validate-fields", "A7.validate-rule", "A7.validate-cross-field", "A7.update-validatebasic", "A3.update-stores", "A6.no-params-cache"}
 	r.Trusted = []string{"baseapp/gov call ValidateBasic before dispatch", "sdk.ValidateDenom", "codec marshalling"}
 	r.NotDecided = []string{"numeric bounds inside validators beyond presence of a rejecting comparison", "governance proposal flow"}
 
@@ -164,6 +164,7 @@ func C16(c *Ctx) {
 
 		validateCoverage(c, m, wantFields[m])
 		updateParamsValidateBasic(c, m)
+		updateTakesEffect(c, m)
 	}
 	noParamsCache(c)
 }
@@ -273,12 +274,95 @@ func validateCoverage(c *Ctx, m string, wantFields int) {
 			}
 		}
 	}
+	// validators reached through function values: a package-level validator built by a factory
+	// (var validateDenom = rules.Denomination("denom")), or the rule column of a table of (value, rule) rows walked by
+	// a loop that applies every row and returns the first error
+	type dynVal struct {
+		val  *ssa.Function
+		call *ssa.Call
+	}
+	dynByField := map[string][]dynVal{}
+	fnOf := func(e *ir.Expr) *ssa.Function {
+		if e != nil && (e.Op == "func" || e.Op == "closure") && e.Callee != nil && len(e.Callee.Blocks) > 0 {
+			return e.Callee
+		}
+		return nil
+	}
+	fieldsIn := func(e *ir.Expr) []string {
+		var out []string
+		e.Walk(func(x *ir.Expr) bool {
+			if x.Op == "field" && len(x.Args) == 1 && x.Args[0].Op == "param" {
+				out = append(out, x.Name)
+				return false
+			}
+			return true
+		})
+		return out
+	}
+	for _, b := range vf.Blocks {
+		for _, in := range b.Instrs {
+			call, ok := in.(*ssa.Call)
+			if !ok || call.Call.IsInvoke() || call.Call.StaticCallee() != nil {
+				continue
+			}
+			if _, isB := call.Call.Value.(*ssa.Builtin); isB {
+				continue
+			}
+			if u, ok := call.Call.Value.(*ssa.UnOp); ok {
+				if g, ok := u.X.(*ssa.Global); ok {
+					if val := fnOf(w.InitOnlyValue(g)); val != nil {
+						for _, a := range call.Call.Args {
+							for _, f := range fieldsIn(w.ExprOf(a)) {
+								dynByField[f] = append(dynByField[f], dynVal{val, call})
+							}
+						}
+					}
+					continue
+				}
+			}
+			e := w.ExprOf(call)
+			var row *ir.Expr
+			e.Walk(func(x *ir.Expr) bool {
+				if row == nil && x.Op == "elem" && len(x.Args) == 2 && x.Args[0].Op == "list" && x.Args[1].Op != "const" {
+					row = x
+				}
+				return row == nil
+			})
+			if row == nil || !forAllLoop(c, vf, b) {
+				continue
+			}
+			for _, part := range row.Args[0].Args {
+				ek := ir.UnrollLists(ir.Replace(e, row, part))
+				if ek.Op != "call" || len(ek.Args) < 2 {
+					continue
+				}
+				val := fnOf(ek.Args[0])
+				if val == nil {
+					continue
+				}
+				for _, a := range ek.Args[1:] {
+					for _, f := range fieldsIn(a) {
+						dynByField[f] = append(dynByField[f], dynVal{val, call})
+					}
+				}
+			}
+		}
+	}
 	for i := 0; i < st.NumFields(); i++ {
 		f := st.Field(i).Name()
 		calls := byField[f]
 		ok := false
 		detail := "field is not passed to any validator"
 		var candidates []*ssa.Function
+		for _, dv := range dynByField[f] {
+			val := resolveValidator(c, dv.val)
+			if rejectingBranch(c, val) && !errorDropped(dv.call) && errReturned(c, vf, dv.call) {
+				ok = true
+				candidates = append(candidates, val)
+			} else {
+				detail = "validator " + fn(dv.val) + " has no value-dependent rejecting branch, or its error is not returned"
+			}
+		}
 		for _, call := range calls {
 			callees := w.CalleesOf(call)
 			if len(callees) == 1 {
@@ -539,6 +623,41 @@ func hasRejectingCmp(c *Ctx, f *ssa.Function, m func(op string, x, y *ir.Expr) b
 	return false
 }
 
+// updateTakesEffect (A3.update-stores): a successful MsgUpdateParams stores the message's parameters — on the flat
+// view of the handler every success return passes a write of the module's params section whose value is msg.Params.
+// The only way round the write that is accepted is the edge of a whole-value comparison "stored params == msg.Params"
+// (an idempotent update); a shortcut decided by anything else (a hand-written "nothing changed" test) can drop an update.
+func updateTakesEffect(c *Ctx, m string) {
+	w, r := c.W, c.R
+	h := handlerOf(c, m, "UpdateParams")
+	if h == nil {
+		r.Undecided("A3.update-stores", m, "", "UpdateParams handler found", "missing")
+		return
+	}
+	isWrite := directSites(c, func(e ir.Effect) bool { return e.Kind == "StoreWrite" && e.Section == paramsSection(m) })
+	isMsgParams := func(e *ir.Expr) bool {
+		x := w.Expand(e, 3)
+		return x.Op == "field" && x.Name == "Params" && len(x.Args) == 1 && x.Args[0].Op == "param"
+	}
+	isStored := func(e *ir.Expr) bool {
+		return w.Expand(e, 4).Any(func(z *ir.Expr) bool { return z.Op == "state" && z.Name == paramsSection(m) })
+	}
+	same := func(p ir.Pred) bool {
+		return cmpIs(p, "==", isMsgParams, isStored) ||
+			p.Pol && p.E.Op == "call" && (strings.HasSuffix(p.E.Name, ".Equal") || strings.HasSuffix(p.E.Name, "reflect.DeepEqual")) && len(p.E.Args) == 2 &&
+				(isMsgParams(p.E.Args[0]) && isStored(p.E.Args[1]) || isStored(p.E.Args[0]) && isMsgParams(p.E.Args[1]))
+	}
+	bad := w.FlatMustPassM(h, isWrite, same)
+	r.Require(len(bad) == 0, "A3.update-stores", m, w.Pos(h.Pos()), "every successful MsgUpdateParams stores the new parameters (they take effect with that very transaction)", fmt.Sprintf("%d success return(s) reachable without a write of the params section", len(bad)))
+	// what is stored is the message's Params
+	n := 0
+	for _, in := range instantiate(c, h, func(e ir.Effect) bool { return e.Kind == "StoreWrite" && e.Section == paramsSection(m) }, func(e ir.Effect) *ir.Expr { return marshalArg(c, e) }) {
+		n++
+		r.Require(in.E != nil && isMsgParams(in.E), "A3.update-stores", m+"|value", pos(c, in.Eff.Site), "the parameters stored by MsgUpdateParams are msg.Params", fmt.Sprint(in.E))
+	}
+	r.Floor("params writes reachable from the "+m+" UpdateParams handler", n, 1)
+}
+
 func updateParamsValidateBasic(c *Ctx, m string) {
 	w, r := c.W, c.R
 	vb := w.LookupFunc("(*x/" + m + "/types.MsgUpdateParams).ValidateBasic")
@@ -585,6 +704,11 @@ func noParamsCache(c *Ctx) {
 			case *types.TypeName:
 				st, ok := o.Type().Underlying().(*types.Struct)
 				if !ok || !strings.HasSuffix(rel, "/keeper") && !strings.HasSuffix(rel, "/ante") {
+					continue
+				}
+				// only long-lived module objects (keepers, servers, decorators: structs holding a store key, recognised by
+				// structure) can cache; a struct that carries Params between the phases of one call is a value like any other
+				if _, holder := c.IsHolder(o.Type()); !holder {
 					continue
 				}
 				nTypes++
